@@ -901,3 +901,183 @@ example : ZooExpr specsQ zQ ∧ ∃ i, build (zooEnv specsQ) zQ = some i ∧
   rw [(C04.build_sound_zoo specsQ zQ hz i hi _).1]
   simp [den, zQ, zooEnv, specsQ, LeafSpec.map, LeafSpec.info, dotFrom, powK]
   norm_num
+
+/-! ### Round 4: the leaf hypotheses discharged for the FULL executable pool -/
+
+/-- `leaf_class_sound`: the linearity class the model assigns to each executable leaf map of the
+correspondence pool (`LeafSpecC.cls`, printed by the driver on the `leafclass` stream and
+compared there with the behaviour of the real operator) is correct, for every size, vector `y`,
+scalar `c`, exponent `p`: class `all` (InnerProductOperator, the linear functional `<·, y>`,
+ScalingOperator on the field, PowerOperator with exponent 1, the linear leaves of the old zoo)
+means additive and homogeneous for EVERY scalar of the field; class `realOnly`
+(ComplexEmbedding ∘ RealPart / ImagPart) means additive and homogeneous for the scalars that
+commute with `re` and `im` (the real ones).  `cs` is any conjugation / real part / imaginary
+part with additive `re`, `im`; nothing is asked of `conj`. -/
+theorem C04.leaf_class_sound {K : Type} [Field K] [DecidableEq K] (cs : CStruct K)
+    (hadd : cs.AddOK) (s : LeafSpecC K) :
+    (s.cls = .all → IsLin allK (s.map cs)) ∧
+    (s.cls = .realOnly → IsLin cs.commutes (s.map cs)) :=
+  leafSpecC_class cs hadd s
+
+/-- `zoo_full_leaves_ok`: every leaf map the driver executes — the old zoo plus inner / linf /
+l2sq / repart / impart / scalef / powf — satisfies what `EnvOK` asks of a leaf with the flags
+the library gives it: flagged `is_linear` ⇒ linear over the scalars commuting with `re`/`im`,
+`Functional` ⇒ returns a scalar.  (L2NormSquared and PowerOperator(field, p ≠ 1) are not
+flagged and nothing is claimed of them.) -/
+theorem C04.zoo_full_leaves_ok {K : Type} [Field K] [DecidableEq K] (cs : CStruct K)
+    (hadd : cs.AddOK) (id : Nat) (s : LeafSpecC K) :
+    ((s.info id).lin = true → IsLin cs.commutes (s.map cs)) ∧
+    ((s.info id).fn = true → ConstFam (s.map cs)) :=
+  leafSpecC_ok cs hadd id s
+
+/-- `build_sound_zoo_full`: soundness with NO leaf hypothesis over the full executable pool.
+For every assignment of concrete leaves (old zoo, InnerProductOperator, linear functional,
+L2NormSquared, Re/Im embeddings, field Scaling / Power), every expression over them (any
+depth, scalars, vectors), if Python builds an object then its out-of-place value and its value
+in in-place operand order are the documented-table value at every point.  What remains as
+hypothesis is about the SCALARS only: those marked `Real` commute with `re`/`im`
+(`RealMarks`; true for Python `int`/`float`), and `re`, `im` are additive. -/
+theorem C04.build_sound_zoo_full {K : Type} [Field K] [DecidableEq K] (cs : CStruct K)
+    (hadd : cs.AddOK) (specs : Nat → LeafSpecC K) (e : Expr K) (hz : ZooExprC specs e)
+    (hre : RealMarks cs.commutes e) (i : Impl K)
+    (h : build (zooEnvC cs specs) e = some i) (x : Vec K) :
+    run (zooEnvC cs specs) i x = den (zooEnvC cs specs) e x ∧
+    runIn (zooEnvC cs specs) i x = den (zooEnvC cs specs) e x :=
+  ⟨C04.build_sound _ _ e (zooC_envOK cs hadd specs e hz hre) i h x,
+   C04.build_sound_inplace _ _ e (zooC_envOK cs hadd specs e hz hre) i h x⟩
+
+/-- `linear_flag_sound_zoo_full`: over the full pool a set `is_linear` flag means the
+expression is additive and homogeneous for the scalars commuting with `re`/`im` — real-linear;
+this is all that can hold, see `repart_not_complex_linear`. -/
+theorem C04.linear_flag_sound_zoo_full {K : Type} [Field K] [DecidableEq K] (cs : CStruct K)
+    (hadd : cs.AddOK) (specs : Nat → LeafSpecC K) (e : Expr K) (hz : ZooExprC specs e)
+    (hre : RealMarks cs.commutes e) (i : Impl K)
+    (h : build (zooEnvC cs specs) e = some i) (hl : i.lin = true) :
+    IsLin cs.commutes (den (zooEnvC cs specs) e) :=
+  C04.linear_flag_sound _ _ e (zooC_envOK cs hadd specs e hz hre) i h hl
+
+/-- `crat_field_is_driver_arith` (by construction, kernel-checked `rfl`s): the `Field` structure
+on the Gaussian rationals under which the C04 theorems are instantiated below has, as its `+`,
+`*`, unary `-`, binary `-`, `/`, `0` and `1`, literally the functions of `Model/CRat.lean` that
+`Drivers/C04.lean` computes with (no re-definition of subtraction or division in between). -/
+theorem C04.crat_field_is_driver_arith :
+    OdlModel.CRat.instField.toAdd = OdlModel.CRat.instAdd ∧
+    OdlModel.CRat.instField.toMul = OdlModel.CRat.instMul ∧
+    OdlModel.CRat.instField.toNeg = OdlModel.CRat.instNeg ∧
+    OdlModel.CRat.instField.toSub = OdlModel.CRat.instSub ∧
+    OdlModel.CRat.instField.toDiv = OdlModel.CRat.instDiv ∧
+    @OfNat.ofNat OdlModel.CRat 0 Zero.toOfNat0 = @OfNat.ofNat OdlModel.CRat 0 OdlModel.CRat.instOfNat ∧
+    @OfNat.ofNat OdlModel.CRat 1 One.toOfNat1 = @OfNat.ofNat OdlModel.CRat 1 OdlModel.CRat.instOfNat :=
+  ⟨rfl, rfl, rfl, rfl, rfl, rfl, rfl⟩
+
+/-- `build_sound_driver_pool`: the full-pool soundness AT THE TYPE AND STRUCTURE THE DRIVER RUNS
+(`K` = Gaussian rationals, `cratStruct` = their `conj`/`re`/`im`; `zooEnvC cratStruct specs` is
+the very environment `Drivers/C04.lean` builds from the wire leaves).  The side conditions on
+`re`/`im` are discharged; what is left is: every scalar the harness marks `Real` has imaginary
+part 0 (`MarksIn`), which the wire format guarantees for Python `int`/`float`. -/
+theorem C04.build_sound_driver_pool (specs : Nat → LeafSpecC OdlModel.CRat)
+    (e : Expr OdlModel.CRat) (hz : ZooExprC specs e) (hre : MarksIn (fun s => s.im = 0) e)
+    (i : Impl OdlModel.CRat) (h : build (zooEnvC cratStruct specs) e = some i)
+    (x : Vec OdlModel.CRat) :
+    run (zooEnvC cratStruct specs) i x = den (zooEnvC cratStruct specs) e x ∧
+    runIn (zooEnvC cratStruct specs) i x = den (zooEnvC cratStruct specs) e x :=
+  C04.build_sound_zoo_full cratStruct cratStruct_addOK specs e hz (realMarks_crat e hre) i h x
+
+/-- `linear_flag_sound_driver_pool`: at the driver's instance, a set `is_linear` flag on the
+object built for a pool expression means additive and homogeneous for every scalar with
+imaginary part 0. -/
+theorem C04.linear_flag_sound_driver_pool (specs : Nat → LeafSpecC OdlModel.CRat)
+    (e : Expr OdlModel.CRat) (hz : ZooExprC specs e) (hre : MarksIn (fun s => s.im = 0) e)
+    (i : Impl OdlModel.CRat) (h : build (zooEnvC cratStruct specs) e = some i)
+    (hl : i.lin = true) :
+    IsLin (fun s => s.im = 0) (den (zooEnvC cratStruct specs) e) := by
+  have := C04.linear_flag_sound_zoo_full cratStruct cratStruct_addOK specs e hz
+    (realMarks_crat e hre) i h hl
+  exact ⟨fun s hs x => this.1 s (cratStruct_commutes_of_real s hs) x, this.2⟩
+
+namespace OdlModel.C04
+/-- leaf 0: `ComplexEmbedding ∘ RealPart` on cn(2); leaf 1: `InnerProductOperator((1j, 1))`;
+leaf 2: `L2NormSquared(cn(2))` -/
+noncomputable def specsC : Nat → LeafSpecC ℂ
+  | 0 => .repart 2
+  | 1 => .inner 2 [Complex.I, 1] false
+  | _ => .l2sq 2
+/-- `2 * (Re * 1j) + v * (3 * Inner)` with `v = (1, 1j)` -/
+noncomputable def zC : Expr ℂ :=
+  .bin .add (.sc .lmul (.sc .rmul (.leaf ((specsC 0).info 0)) Complex.I false) 2 true)
+    (.vc .lmul (.sc .lmul (.leaf ((specsC 1).info 1)) 3 true) ⟨2, fun j => if j = 0 then 1 else Complex.I⟩)
+end OdlModel.C04
+
+/-- `repart_not_complex_linear`: class `realOnly` is tight — over `ℂ` the Re-embedding leaf
+(flagged `is_linear` by the library) is NOT homogeneous for the scalar `1j`; this is why the
+dispatch may move only `Real` scalars through a flagged operator (C04-F2) and why the zoo
+theorems speak of the commuting scalars. -/
+theorem C04.repart_not_complex_linear :
+    ¬ Homog allK ((LeafSpecC.repart 2 : LeafSpecC ℂ).map OdlModel.C04.csC) := by
+  intro h
+  have := congrFun (h Complex.I trivial (fun _ => Complex.I)) 0
+  simp [LeafSpecC.map, OdlModel.C04.csC] at this
+
+/-- `l2sq_powf_not_additive`: class `none` is tight for the two unflagged leaves of the pool:
+over `ℚ` (trivial conjugation) `L2NormSquared(rn(1))` and `PowerOperator(field, 2)` are not
+additive. -/
+theorem C04.l2sq_powf_not_additive :
+    ¬ Additive ((LeafSpecC.l2sq 1 : LeafSpecC ℚ).map ⟨id, id, fun _ => 0⟩) ∧
+    ¬ Additive ((LeafSpecC.powf 2 : LeafSpecC ℚ).map ⟨id, id, fun _ => 0⟩) := by
+  constructor <;> intro h <;>
+    have := congrFun (h (fun _ => 1) (fun _ => 1)) 0 <;>
+    simp only [LeafSpecC.map, sqSum, powK, id] at this <;>
+    grind
+
+open OdlModel.C04 in
+/-- non-vacuity of the full-zoo theorems over `ℂ`: the hypotheses hold for
+`2 * (Re * 1j) + v * (3 * Inner)` (a real-linear-only leaf under a complex right scalar and a
+real left scalar, an inner-product leaf under a left vector), it builds, and its first entry at
+`x = (1, 1)` is `2 * Re(1j) + 1 * 3 * (1 * conj(1j) + 1) = 3 - 3j`. -/
+example : ZooExprC specsC zC ∧ RealMarks csC.commutes zC ∧
+    ∃ i, build (zooEnvC csC specsC) zC = some i ∧
+      run (zooEnvC csC specsC) i (fun _ => 1) 0 = 3 - 3 * Complex.I := by
+  have hz : ZooExprC specsC zC := ⟨rfl, rfl⟩
+  have hre : RealMarks csC.commutes zC := by
+    refine ⟨⟨⟨trivial, fun h => by simp at h⟩, fun _ => ⟨csC_commutes_of_real _ (by simp),
+      csC_commutes_of_real _ (by simp)⟩⟩, trivial, fun _ => ⟨csC_commutes_of_real _ (by simp),
+      csC_commutes_of_real _ (by simp)⟩⟩
+  refine ⟨hz, hre, ?_⟩
+  obtain ⟨i, hi, _⟩ := C04.build_total (zooEnvC csC specsC) zC
+    (by simp [zC, LeavesWf, specsC, LeafSpecC.info]) ⟨.vec 2, .vec 2, false⟩ rfl
+  refine ⟨i, hi, ?_⟩
+  rw [(C04.build_sound_zoo_full csC csC_addOK specsC zC hz hre i hi _).1]
+  simp [den, zC, zooEnvC, specsC, LeafSpecC.map, LeafSpecC.info, dotConj, csC]
+  apply Complex.ext <;> simp
+
+namespace OdlModel.C04
+/-- leaf 0: Im-embedding on cn(2); leaf 1: the linear functional `<·, (1+1j, 2)>`;
+leaf 2: `PowerOperator(field, 2)` -/
+def specsD : Nat → LeafSpecC OdlModel.CRat
+  | 0 => .impart 2
+  | 1 => .inner 2 [⟨1, 1⟩, ⟨2, 0⟩] true
+  | _ => .powf 2
+/-- `(Pow2f * (Linf * (Im * 1j))) * 2`, the `2` a Python float -/
+def zD : Expr OdlModel.CRat :=
+  .sc .rmul (.bin .mul (.leaf ((specsD 2).info 2))
+    (.bin .mul (.leaf ((specsD 1).info 1)) (.sc .rmul (.leaf ((specsD 0).info 0)) ⟨0, 1⟩ false))) ⟨2, 0⟩ true
+end OdlModel.C04
+
+open OdlModel.C04 in
+/-- non-vacuity at the driver's instance: the hypotheses of `build_sound_driver_pool` hold for
+`(Pow2f * (Linf * (Im * 1j))) * 2`, it builds, and at `x = (1, 1)` the value is
+`(<Im(1j * 2x) , y>)^2 = (2(1-1j) + 4)^2 = 32 - 24j`. -/
+example : ZooExprC specsD zD ∧ MarksIn (fun s => s.im = 0) zD ∧
+    ∃ i, build (zooEnvC cratStruct specsD) zD = some i ∧
+      run (zooEnvC cratStruct specsD) i (fun _ => ⟨1, 0⟩) 0 = ⟨32, -24⟩ := by
+  have hz : ZooExprC specsD zD := ⟨rfl, rfl, rfl⟩
+  have hre : MarksIn (fun s => s.im = 0) zD :=
+    ⟨⟨trivial, trivial, trivial, fun h => by simp at h⟩, fun _ => rfl⟩
+  refine ⟨hz, hre, ?_⟩
+  obtain ⟨i, hi, _⟩ := C04.build_total (zooEnvC cratStruct specsD) zD
+    (by simp [zD, LeavesWf, specsD, LeafSpecC.info]) ⟨.vec 2, .fld, false⟩ rfl
+  refine ⟨i, hi, ?_⟩
+  rw [(C04.build_sound_driver_pool specsD zD hz hre i hi _).1]
+  simp only [den, zD, zooEnvC, specsD, LeafSpecC.map, LeafSpecC.info, dotConj, powK, cratStruct,
+    OdlModel.CRat.conj]
+  ext <;> simp <;> norm_num
